@@ -55,7 +55,7 @@ func (e *Engine) qSites(fn *ssa.Function, q map[string]bool, depth int, memo map
 			out = append(out, c)
 			continue
 		}
-		callee := c.Common().StaticCallee()
+		callee := Devirt(c.Common())
 		if callee == nil || callee.Blocks == nil || callee.Pkg == nil || callee.Pkg.Pkg.Path() != pStakingKeep || depth >= 3 || callee == fn {
 			continue
 		}
